@@ -69,9 +69,12 @@ def gen_arcs(rng, n, simple):
             continue
         cost = rng.choice([0, 1, 1]) if ties else rng.randrange(-3 if neg else 0, 7)
         arcs.append([u, v, rng.choice([0, 1, 1, 2, 3, 4]), cost])
-    if arcs and rng.random() < 0.12:
-        # one very expensive "penalty" arc (still an integer cost): tolerances must not scale with the largest cost
-        arcs[rng.randrange(len(arcs))][3] = rng.choice([10**6, 10**9, 10**10])
+    if arcs and rng.random() < 0.15:
+        # one very expensive "penalty" arc (still an integer cost) next to ordinary costs of either sign:
+        # tolerances must not scale with the largest cost
+        for a in arcs:
+            a[3] = rng.randrange(-10, 21)
+        arcs[rng.randrange(len(arcs))][3] = rng.choice([10**9, 10**9, 10**10])
     return arcs
 
 
